@@ -423,6 +423,20 @@ class Ev:
                 mname, q = c.split(":")
                 f = self.model.mods[mname].funcs.get(f"{q}.{name}")
                 if f is not None:
+                    decos = {(dotted_name(d) or src(d)).split(".")[-1] for d in f.decorator_list}
+                    if decos & {"property", "LazyProperty", "cached_property", "lazy_property"}:
+                        # super().<property>: the base class's getter evaluated on this object (not the instance cache of
+                        # the overriding property)
+                        pc = v.obj.__dict__.setdefault("_prop_cache", {})
+                        key = (id(self), f"{c}.{name}", "super")
+                        ep = None if "property" not in decos else self.epoch
+                        if key not in pc or pc[key][2] != ep:
+                            pc[key] = (self, self.call_def(f, self.model.mods[mname], f"{c}.{name}", [v.obj], {}), ep)
+                        return pc[key][1]
+                    if "staticmethod" in decos:
+                        return FuncV(f"{c}.{name}")
+                    if "classmethod" in decos:
+                        return FuncV(f"{c}.{name}", bound=ClsV(v.obj.cls))
                     return FuncV(f"{c}.{name}", bound=v.obj)
             raise self.err(f"super().{name} not found", node, mod)
         if hasattr(v, "sym_getattr"):
@@ -3281,6 +3295,20 @@ def lib_where3(ev, a, k, n, mod):
         return sp.Function("WHERE")(sp.Symbol("cond[" + cond.text + "]"), as_sym(x), as_sym(y))
     if isinstance(cond, TolCond):
         return sp.Function("WHERE")(sp.Symbol("cond[" + cond.text + "]"), as_sym(x), as_sym(y))
+    if isinstance(cond, ArrV) and getattr(cond, "is_cond", False):
+        # elementwise selection with a value-dependent condition per cell
+        import itertools as _it
+
+        def cell(v, key):
+            if isinstance(v, ArrV):
+                if v.shape != cond.shape:
+                    raise ev.err("numpy.where: operand shape differs from the condition", n, mod)
+                return v.get(key)
+            return as_sym(v)
+        out = ArrV(cond.batch, cond.shape, batch_last=cond.batch_last)
+        for key in _it.product(*[range(s_) for s_ in cond.shape]):
+            out.cells[key] = sp.Function("WHERE")(cond.get(key), cell(x, key), cell(y, key))
+        return out
     raise ev.err("numpy.where with an unsupported condition", n, mod)
 
 
@@ -3298,6 +3326,25 @@ def lib_isclose_sym(ev, a, k, n, mod):
 
 
 lib_isclose_sym.kw = {"atol", "rtol"}
+
+
+def lib_value_predicate(name):
+    """isfinite / isnan / isinf: a condition on the VALUE of its argument (never a position)"""
+    def f(ev, a, k, n, mod):
+        x = a[0]
+        if isinstance(x, (int, float)) and not isinstance(x, bool):
+            import math
+            return getattr(math, name)(x)
+        if isinstance(x, ArrV):
+            # elementwise: each cell's predicate is a condition on that cell's value
+            import itertools as _it
+            out = ArrV(x.batch, x.shape, fill=sp.Symbol(f"cond[{name}({x.fill})]"), batch_last=x.batch_last)
+            for key in _it.product(*[range(s_) for s_ in x.shape]):
+                out.cells[key] = sp.Symbol(f"cond[{name}({x.get(key)})]")
+            out.is_cond = True
+            return out
+        return TolCond(f"{name}({as_sym(x)})")
+    return f
 
 
 def lib_inner(ev, a, k, n, mod):
@@ -3351,7 +3398,8 @@ LIB.update({
     "numpy.asanyarray": lib_asarray,
     "numpy.mean": lib_np_average(lib_opaque_reduce("MEAN"), False), "numpy.average": lib_np_average(None, True), "slice": lib_slice, "numpy.amin": lib_opaque_reduce("MIN"), "numpy.amax": lib_opaque_reduce("MAX"),
     "numpy.min": lib_opaque_reduce("MIN"), "numpy.max": lib_opaque_reduce("MAX"),
-    "numpy.isclose": lib_isclose_sym, "numpy.where": lib_where3, "numpy.inner": lib_inner, "numpy.dot": lib_dot, "numpy.matmul": lib_dot,
+    "numpy.isclose": lib_isclose_sym, "numpy.isfinite": lib_value_predicate("isfinite"), "numpy.isnan": lib_value_predicate("isnan"),
+    "numpy.isinf": lib_value_predicate("isinf"), "numpy.where": lib_where3, "numpy.inner": lib_inner, "numpy.dot": lib_dot, "numpy.matmul": lib_dot,
     "numpy.searchsorted": lib_searchsorted,
     "ndarray.argmin": lambda ev, a, k, n, mod: sp.Function("ARGMIN")(as_sym(a[0])),
     "ndarray.argmax": lambda ev, a, k, n, mod: sp.Function("ARGMAX")(as_sym(a[0])),
